@@ -116,14 +116,6 @@ Proof.
 Qed.
 
 (** *** the shape of a built body *)
-Lemma payload_v1v4_ok pre ms u :
-  payload_v1v4 pre ms = Ok u ->
-  u = ocell (pre ++ modes_bits ms) (map rm_msg ms) /\ (length ms <= 4)%nat.
-Proof.
-  unfold payload_v1v4. destruct (4 <? length ms)%nat eqn:E; [discriminate|].
-  intros H. apply mk_ok in H. apply Nat.ltb_ge in E. tauto.
-Qed.
-
 Lemma unsigned_ocell w ms seqno valid mt rnd u :
   unsigned_body w ms seqno valid mt rnd = Ok u -> u = ocell (cdata u) (crefs u).
 Proof.
